@@ -66,6 +66,9 @@ pub enum Case {
         #[serde(default)]
         prefixed: bool,
     },
+    /// `x S0 + y S1` against `x S0 + (y S1 to S0)`: the conversion a sum or difference performs on its right
+    /// operand is the same conversion `to` performs.
+    Implicit { direct: String, explicit: String },
     /// Several lone-scale conversions as the root expressions of ONE query: each as if it stood alone.
     Several { query: String, expects: Vec<String>, units: Vec<(String, i32)> },
     /// Offset scale not alone: result must be an error or exactly the interval value.
@@ -227,9 +230,34 @@ fn several() -> impl Strategy<Value = Case> {
     })
 }
 
+fn implicit() -> impl Strategy<Value = Case> {
+    (lit(), lit(), scale(), scale(), any::<bool>()).prop_map(|(x, y, a, b, minus)| {
+        let op = if minus { "-" } else { "+" };
+        Case::Implicit { direct: format!("{} {} {} {} {}", x.text, a.1, op, y.text, b.1), explicit: format!("{} {} {} ({} {} to {})", x.text, a.1, op, y.text, b.1, a.1) }
+    })
+}
+
 fn check(c: &Case) -> CaseReport {
     let db = shared_db();
     match c {
+        Case::Implicit { direct, explicit } => {
+            let (r1, r2) = match (run(db, direct), run(db, explicit)) {
+                (Ok(a), Ok(b)) => (a, b),
+                (Err(p), _) | (_, Err(p)) => return CaseReport::fail(direct, "panic", json!({"query": direct, "panic": p})),
+            };
+            let same = r1.len() == 1
+                && r2.len() == 1
+                && match (&r1[0], &r2[0]) {
+                    (R::Ok(v), R::Ok(w)) => v.value == w.value && v.unit == w.unit,
+                    (R::Err { .. }, R::Err { .. }) => true,
+                    _ => false,
+                };
+            if same {
+                CaseReport::pass(direct, true, vec!["implicit-conversion-in-a-sum"])
+            } else {
+                CaseReport::fail(direct, "implicit-conversion-differs-from-explicit", json!({"direct": direct, "got": results_json(&r1), "explicit": explicit, "got_explicit": results_json(&r2)}))
+            }
+        }
         Case::Several { query, expects, units } => {
             let rs = match run(db, query) {
                 Ok(r) => r,
@@ -301,7 +329,7 @@ fn check(c: &Case) -> CaseReport {
 }
 
 pub fn run_check(ctx: &Ctx) {
-    ctx.set_rule("chains `x S0 to S1 ... to Sn` (n <= 4) over K, °C/celsius, °F/fahrenheit with rational magnitudes (incl. absolute zero, -40, huge and tiny): the result must equal the direct conversion by K = C + 273.15, C = (F - 32)*5/9 exactly and carry the last scale alone; two to four such conversions as the root expressions of one query each give what they give alone; and the not-alone class (scale with power -3..3 other than 1, or multiplied/divided by one or two other units, cast to the same shape over another scale): the result must be an error or exactly the interval conversion; non-trivial = chain of >=2 hops or not-alone; distinct by query text");
+    ctx.set_rule("chains `x S0 to S1 ... to Sn` (n <= 4) over K, °C/celsius, °F/fahrenheit with rational magnitudes (incl. absolute zero, -40, huge and tiny): the result must equal the direct conversion by K = C + 273.15, C = (F - 32)*5/9 exactly and carry the last scale alone; two to four such conversions as the root expressions of one query each give what they give alone; a sum or difference of two lone scales equals the same sum with the right operand converted explicitly; and the not-alone class (scale with power -3..3 other than 1, or multiplied/divided by one or two other units, cast to the same shape over another scale): the result must be an error or exactly the interval conversion; non-trivial = chain of >=2 hops or not-alone; distinct by query text");
     ctx.assume("a prefixed degree (m°C, kK, millicelsius) is exactly its power of ten degrees of that scale (C03's prefix rule)");
     let corpus: Vec<(String, Case)> = load_corpus("C09");
     let cases: Vec<Case> = corpus.into_iter().map(|c| c.1).collect();
@@ -309,6 +337,7 @@ pub fn run_check(ctx: &Ctx) {
     let n = ctx.tier.pick(150_000u64, 3_000_000);
     ctx.run_gen("chains", chain, n, check, |c| to_json(c));
     ctx.run_gen("several-in-one-query", several, n / 4, check, |c| to_json(c));
+    ctx.run_gen("implicit-conversion", implicit, n / 4, check, |c| to_json(c));
     ctx.run_gen("not-alone", not_alone, n / 2, check, |c| to_json(c));
     ctx.run_gen("not-alone-mixed-shape", mixed_shape, n / 4, check, |c| to_json(c));
     let _ = USpell { factors: vec![], slash: false, star: false, noise: 0, starstar: false };
